@@ -12,6 +12,7 @@ from typing import IO, Any, Generic, TypeVar
 import geojson
 import shapefile
 import shapely
+import shapely.geometry
 import xarray
 
 from emsarray.types import Pathish
@@ -43,6 +44,16 @@ class _dumpable_iterator(Generic[T], list):
         raise NotImplementedError("Can't get the length of a _dumpable_iterator")
 
 
+#: The geojson library rounds coordinates to six decimal places by default.
+#: This many decimal places leaves every double precision value unchanged.
+GEOJSON_PRECISION = 32
+
+
+def _geojson_polygon(polygon: shapely.Polygon) -> geojson.Polygon:
+    coordinates = shapely.geometry.mapping(polygon)['coordinates']
+    return geojson.Polygon(coordinates, precision=GEOJSON_PRECISION)
+
+
 def to_geojson(
     dataset: xarray.Dataset,
 ) -> geojson.FeatureCollection:
@@ -72,7 +83,7 @@ def to_geojson(
     :func:`.write_geojson`
     """
     return geojson.FeatureCollection(_dumpable_iterator(
-        geojson.Feature(geometry=polygon, properties={
+        geojson.Feature(geometry=_geojson_polygon(polygon), properties={
             'linear_index': i,
             'index': dataset.ems.wind_index(i),
         })
